@@ -53,6 +53,13 @@ func replayCase(a *checkArgs, r *Result, prop string) (handled bool, err error) 
 		var c w2Case
 		json.Unmarshal(rp.Case, &c)
 		runW2Case(r, dp, c)
+		runW2Model(r, dp, c)
+	case "ring-script":
+		var c ringCase
+		json.Unmarshal(rp.Case, &c)
+		if err := runRingCase(r, dp, c); err != nil {
+			return false, err
+		}
 	case "gxz-run":
 		var c gxzScenario
 		json.Unmarshal(rp.Case, &c)
